@@ -19,11 +19,13 @@ KERNELS = {
 
 # ------------------------------------------------------------------------------------------------ oracle wrappers
 def o_basis(rng, n=6, which=("perm", "spg", "sum", "ortho", "compact"), max_N=(8, 5, 4), orders=(2, 3, 4), min_nlp=1,
-            hooks=None):
+            hooks=None, explicit_ops=0.0):
     def gen():
         for inp in O.gen_basis_inputs(rng, n, max_N=max_N, orders=orders, min_nlp=min_nlp):
             if hooks:
                 inp["hooks"] = hooks
+            if rng.random() < explicit_ops:
+                inp["explicit_ops"] = rng.randrange(1000)
             yield inp
     return O.run_oracle("basis_invariants", gen(), which=which,
                         nontrivial=lambda i: i["crystal"].n_lp_expected >= 2 or len(i["crystal"].numbers) >= 2)
@@ -76,7 +78,7 @@ def o_paths(rng, n=3, max_N=(6, 4, 3)):
             order = (2, 3, 4)[k % 3]
             yield {"crystal": crystal(rng, max_N=max_N[order - 2]), "orders": [order], "seed": rng.randrange(10 ** 6),
                    "hook_sets": [{"eig_threshold": 5, "eig_target": rng.randint(3, 6)}, {"perm_nbatch": 2},
-                                 {"sumrule_nbatch": 2}]}
+                                 {"sumrule_nbatch": 64}]}
     return O.run_oracle("paths", gen())
 
 
@@ -137,20 +139,22 @@ PROPS = {
         "lean": "SymfcModel.Props.C02", "gen": ["SumRule", "PermTables"],
         "corr": [{"fn": S.corr_coset, "quick": {"n_cases": 12}, "thorough": {"n_cases": 150}},
                  {"fn": C.corr_cell_index, "quick": {"n_cases": 6}, "thorough": {"n_cases": 60}}],
-        "oracle": [{"name": "basis_spg", "fn": o_basis, "quick": {"n": 6, "which": ("spg",)},
-                    "thorough": {"n": 36, "which": ("spg",), "max_N": (10, 6, 4)},
-                    "search": {"n": 30, "which": ("spg",)}}],
+        "oracle": [{"name": "basis_spg", "fn": o_basis, "quick": {"n": 9, "which": ("spg",), "explicit_ops": 0.5},
+                    "thorough": {"n": 48, "which": ("spg",), "max_N": (10, 6, 4), "explicit_ops": 0.5},
+                    "search": {"n": 36, "which": ("spg",), "explicit_ops": 0.5}}],
         "trusted": [KERNELS["eigh"], KERNELS["spglib"], KERNELS["float"]],
     },
     "C03": {
         "lean": "SymfcModel.Props.C03", "gen": ["SumRule"],
-        "corr": [{"fn": S.corr_sum_rule, "quick": {"n_cases": 9, "sizes": ((6, 6), (4, 4), (3, 3))},
-                  "thorough": {"n_cases": 90}}],
+        "corr": [{"fn": S.corr_sum_rule, "quick": {"n_cases": 36, "sizes": ((6, 6), (6, 6), (3, 3))},
+                  "thorough": {"n_cases": 240, "sizes": ((8, 8), (6, 6), (4, 4))}}],
         "oracle": [{"name": "basis_sum", "fn": o_basis, "quick": {"n": 6, "which": ("sum",)},
                     "thorough": {"n": 36, "which": ("sum",), "max_N": (10, 6, 4)}, "search": {"n": 30, "which": ("sum",)}},
                    {"name": "basis_sum_large_path", "fn": o_basis,
-                    "quick": {"n": 3, "which": ("sum",), "hooks": {"eig_threshold": 5, "eig_target": 4, "sumrule_nbatch": 2}},
-                    "thorough": {"n": 18, "which": ("sum",), "hooks": {"eig_threshold": 5, "eig_target": 4, "sumrule_nbatch": 2}}}],
+                    "quick": {"n": 3, "which": ("sum",), "hooks": {"eig_threshold": 5, "eig_target": 4, "sumrule_nbatch": 64}},
+                    "thorough": {"n": 18, "which": ("sum",), "hooks": {"eig_threshold": 5, "eig_target": 4, "sumrule_nbatch": 64}},
+                    "search": {"n": 30, "which": ("sum",), "max_N": (8, 6, 4), "min_nlp": 2,
+                               "hooks": {"eig_threshold": 5, "eig_target": 4, "sumrule_nbatch": 64}}}],
         "trusted": [KERNELS["eigh"], KERNELS["float"]],
     },
     "C04": {
@@ -202,7 +206,8 @@ PROPS = {
                     "thorough": {"n": 36, "which": ("ortho",)}, "search": {"n": 24, "which": ("ortho",)}},
                    {"name": "basis_ortho_large_path", "fn": o_basis,
                     "quick": {"n": 3, "which": ("ortho",), "hooks": {"eig_threshold": 5, "eig_target": 4}},
-                    "thorough": {"n": 18, "which": ("ortho",), "hooks": {"eig_threshold": 5, "eig_target": 4}}}],
+                    "thorough": {"n": 18, "which": ("ortho",), "hooks": {"eig_threshold": 5, "eig_target": 4}},
+                    "search": {"n": 24, "which": ("ortho",), "hooks": {"eig_threshold": 5, "eig_target": 4}}}],
         "trusted": [KERNELS["eigh"], KERNELS["float"]],
     },
     "C10": {
@@ -217,7 +222,7 @@ PROPS = {
     "C11": {
         "lean": "SymfcModel.Props.C11", "gen": ["PermTables", "Solver", "SumRule", "Eig"],
         "corr": [{"fn": C.corr_perm_stage, "quick": {"n_cases": 12, "force_order": None}, "thorough": {"n_cases": 150}},
-                 {"fn": S.corr_sum_rule, "quick": {"n_cases": 6, "sizes": ((6, 6), (4, 4), (3, 3))}, "thorough": {"n_cases": 60}},
+                 {"fn": S.corr_sum_rule, "quick": {"n_cases": 24, "sizes": ((6, 6), (6, 6), (3, 3))}, "thorough": {"n_cases": 120}},
                  {"fn": S.corr_normal_eq, "quick": {"n_cases": 9}, "thorough": {"n_cases": 90}}],
         "oracle": [{"name": "paths", "fn": o_paths, "quick": {"n": 3}, "thorough": {"n": 18}, "search": {"n": 12}},
                    {"name": "fit_paths", "fn": o_fit("fit_relations"), "quick": {"n": 2}, "thorough": {"n": 12}}],
